@@ -210,7 +210,7 @@ pub fn run(ctx: &Ctx) -> CheckResult {
     // right before the last operation
     if !res.out.failed() {
         let cap = if th { 5 } else { 4 };
-        let jobs2: Vec<(usize, usize, Via)> = jobs.iter().filter(|(i, _)| spaces[*i].label != "huge period").flat_map(|(i, a)| [(*i, *a, Via::Serde), (*i, *a, Via::Clone)]).collect();
+        let jobs2: Vec<(usize, usize, Via)> = jobs.iter().filter(|(i, _)| spaces[*i].label != "huge period").flat_map(|(i, a)| VIAS.map(|v| (*i, *a, v))).collect();
         let outs = par_run(ctx, &jobs2, |_, (i, a, via)| {
             let sp = &spaces[*i];
             let mut out = JobOut::default();
